@@ -259,13 +259,61 @@ theorem endsNL_drop (l : Bytes) (k : Nat) (h : EndsNL l) : l.drop k = [] ∨ End
   · left
     exact List.drop_eq_nil_of_le (by omega)
 
+/-- a copied code block (up to and including the end string, plus '\n') is never longer than
+the input it consumes, and what is left is empty or again ends in '\n': the end string holds no
+'\n', so it cannot reach the final newline of the input. -/
+theorem block_copy_bounds (kw : Bytes × Bytes) (hne : kw.2 ≠ []) (hno : ∀ b ∈ kw.2, b ≠ 10)
+    (input : Bytes) (hin : input = [] ∨ EndsNL input) (p : Nat) (hf : findSub kw.2 input = some p) :
+    p + kw.2.length + 1 ≤ input.length ∧
+    (input.drop (p + kw.2.length + 1) = [] ∨ EndsNL (input.drop (p + kw.2.length + 1))) := by
+  obtain ⟨t, ht⟩ := findSub_spec kw.2 input p hf
+  have hlen : p + kw.2.length + t.length = input.length := by
+    have := congrArg List.length ht
+    simp only [List.length_drop, List.length_append] at this
+    have hp : p ≤ input.length := by
+      by_cases hp : p ≤ input.length
+      · exact hp
+      · exfalso
+        have : input.drop p = [] := List.drop_eq_nil_of_le (by omega)
+        rw [this] at ht
+        cases hpat : kw.2 with
+        | nil => exact hne hpat
+        | cons _ _ => rw [hpat] at ht; cases ht
+    omega
+  have htne : t ≠ [] := by
+    intro ht0
+    subst ht0
+    rcases hin with h0 | hnl
+    · subst h0
+      simp at ht
+      exact hne ht
+    · have hl : (input.drop p).getLast? = some 10 := by
+        have hp : p < input.length := by
+          have : 0 < kw.2.length := by cases h : kw.2 with
+            | nil => exact absurd h hne
+            | cons _ _ => simp
+          omega
+        unfold EndsNL at hnl
+        rw [List.getLast?_drop]
+        simp [hnl]; omega
+      rw [ht, List.append_nil] at hl
+      exact hno 10 (List.mem_of_getLast? hl) rfl
+  refine ⟨?_, ?_⟩
+  · have : 0 < t.length := by cases t with
+      | nil => exact absurd rfl htne
+      | cons _ _ => simp
+    omega
+  · rcases hin with h0 | hnl
+    · subst h0; left; simp
+    · exact endsNL_drop input _ hnl
+
 /-- the slow path of `clean` never writes past `dst` (sized `str.size()`) either, provided
 no end string of a code keyword contains a newline (PYEND, ENDDYN do not): a copied block
-plus its `'\n'` is never longer than the input it consumes. -/
-theorem cleanSlow_length_le (kws : List (Bytes × Bytes))
+plus its `'\n'` is never longer than the input it consumes.  Both shapes of the loop. -/
+theorem cleanSlow_length_le (retest : Bool) (kws : List (Bytes × Bytes))
     (hk : ∀ kw ∈ kws, kw.2 ≠ [] ∧ ∀ b ∈ kw.2, b ≠ 10) :
     ∀ (fuel : Nat) (input : Bytes), input = [] ∨ EndsNL input →
-      (cleanSlow kws fuel input).length ≤ input.length := by
+      (cleanSlow retest kws fuel input).length ≤ input.length := by
   intro fuel
   induction fuel with
   | zero => intro input _; simp [cleanSlow]
@@ -275,7 +323,7 @@ theorem cleanSlow_length_le (kws : List (Bytes × Bytes))
     have line_step : ∀ (inp : Bytes), inp = [] ∨ EndsNL inp →
         (match getline inp with
           | none => ([] : Bytes)
-          | some (line, rest) => cleanLine line ++ [10] ++ cleanSlow kws fuel rest).length ≤ inp.length := by
+          | some (line, rest) => cleanLine line ++ [10] ++ cleanSlow retest kws fuel rest).length ≤ inp.length := by
       intro inp hinp
       rcases hinp with rfl | hnl
       · simp [getline]
@@ -289,8 +337,8 @@ theorem cleanSlow_length_le (kws : List (Bytes × Bytes))
     simp only [cleanSlow]
     cases hcs : codeStart kws input with
     | none =>
-      simp only
       have := line_step input hin
+      simp only
       cases hg : getline input with
       | none => simp
       | some lr =>
@@ -304,71 +352,44 @@ theorem cleanSlow_length_le (kws : List (Bytes × Bytes))
       obtain ⟨hne, hno⟩ := hk kw hkw
       simp only
       cases hf : findSub kw.2 input with
-      | none => simp [getline]
+      | none =>
+        simp only
+        cases retest with
+        | true =>
+          have := ih [] (Or.inl rfl)
+          simp only [↓reduceIte, List.length_append]
+          simp only [List.length_nil] at this
+          omega
+        | false => simp [getline]
       | some p =>
         simp only
-        obtain ⟨t, ht⟩ := findSub_spec kw.2 input p hf
-        have hlen : p + kw.2.length + t.length = input.length := by
-          have := congrArg List.length ht
-          simp only [List.length_drop, List.length_append] at this
-          have hp : p ≤ input.length := by
-            by_cases hp : p ≤ input.length
-            · exact hp
-            · exfalso
-              have : input.drop p = [] := List.drop_eq_nil_of_le (by omega)
-              rw [this] at ht
-              cases hpat : kw.2 with
-              | nil => exact hne hpat
-              | cons _ _ => rw [hpat] at ht; cases ht
-          omega
-        -- the end string cannot reach the final newline of the input
-        have htne : t ≠ [] := by
-          intro ht0
-          subst ht0
-          rcases hin with h0 | hnl
-          · subst h0
-            simp at ht
-            exact hne ht
-          · have hl : (input.drop p).getLast? = some 10 := by
-              have hp : p < input.length := by
-                have : 0 < kw.2.length := by cases h : kw.2 with
-                  | nil => exact absurd h hne
-                  | cons _ _ => simp
-                omega
-              unfold EndsNL at hnl
-              rw [List.getLast?_drop]
-              simp [hnl]; omega
-            rw [ht, List.append_nil] at hl
-            exact hno 10 (List.mem_of_getLast? hl) rfl
-        have hlt : p + kw.2.length + 1 ≤ input.length := by
-          have : 0 < t.length := by cases t with
-            | nil => exact absurd rfl htne
-            | cons _ _ => simp
-          omega
-        have hrest : input.drop (p + kw.2.length + 1) = [] ∨ EndsNL (input.drop (p + kw.2.length + 1)) := by
-          rcases hin with h0 | hnl
-          · subst h0; left; simp
-          · exact endsNL_drop input _ hnl
-        have := line_step (input.drop (p + kw.2.length + 1)) hrest
+        obtain ⟨hlt, hrest⟩ := block_copy_bounds kw hne hno input hin p hf
+        have htl : (input.take (p + kw.2.length)).length = p + kw.2.length := by simp; omega
         have hdl : (input.drop (p + kw.2.length + 1)).length = input.length - (p + kw.2.length + 1) := by simp
-        have htl : (input.take (p + kw.2.length)).length = p + kw.2.length := by
-          simp; omega
-        cases hg : getline (input.drop (p + kw.2.length + 1)) with
-        | none =>
-          simp only [List.length_append, htl, List.length_cons, List.length_nil]
+        cases retest with
+        | true =>
+          have := ih _ hrest
+          simp only [↓reduceIte, List.length_append, htl, List.length_cons, List.length_nil]
           omega
-        | some lr =>
-          obtain ⟨line, rest⟩ := lr
-          rw [hg] at this
-          simp only [List.length_append, htl, List.length_cons, List.length_nil] at this ⊢
-          omega
+        | false =>
+          have := line_step (input.drop (p + kw.2.length + 1)) hrest
+          simp only [Bool.false_eq_true, ↓reduceIte]
+          cases hg : getline (input.drop (p + kw.2.length + 1)) with
+          | none =>
+            simp only [List.length_append, htl, List.length_cons, List.length_nil]
+            omega
+          | some lr =>
+            obtain ⟨line, rest⟩ := lr
+            rw [hg] at this
+            simp only [List.length_append, htl, List.length_cons, List.length_nil] at this ⊢
+            omega
 
-/-- `clean` (either path) never produces more bytes than it was given. -/
-theorem clean_length_le (kws : List (Bytes × Bytes)) (hk : ∀ kw ∈ kws, kw.2 ≠ [] ∧ ∀ b ∈ kw.2, b ≠ 10)
-    (input : Bytes) (h : input = [] ∨ EndsNL input) : (clean kws input).length ≤ input.length := by
+/-- `clean` (either path, either shape of the slow loop) never produces more bytes than it was given. -/
+theorem clean_length_le (retest : Bool) (kws : List (Bytes × Bytes)) (hk : ∀ kw ∈ kws, kw.2 ≠ [] ∧ ∀ b ∈ kw.2, b ≠ 10)
+    (input : Bytes) (h : input = [] ∨ EndsNL input) : (clean retest kws input).length ≤ input.length := by
   unfold clean
   split
-  · exact cleanSlow_length_le kws hk _ input h
+  · exact cleanSlow_length_le retest kws hk _ input h
   · exact fastClean_length_le input h
 
 /-- `find_terminator`'s recursion terminates within `length + 1` calls and agrees with the
@@ -376,6 +397,177 @@ total state machine (restated from `LexMirror` for the C20 check). -/
 theorem findTerminator_total (l : Bytes) :
     stripCommentsM l = stripComments l ∧ delAfterFirstSlashM l = delAfterFirstSlash l :=
   ⟨stripCommentsM_eq l, delAfterFirstSlashM_eq l⟩
+
+/-! ### second round: the slow path of `clean` terminates and keeps the newline invariant -/
+
+theorem getline_rest_lt (input line rest : Bytes) (h : getline input = some (line, rest)) :
+    rest.length < input.length := by
+  cases input with
+  | nil => simp [getline] at h
+  | cons c r =>
+    simp only [getline, Option.some.injEq, Prod.mk.injEq] at h
+    obtain ⟨_, hr⟩ := h
+    subst hr
+    have h1 := (List.dropWhile_suffix (· != 10) (l := c :: r)).length_le
+    cases hd : (c :: r).dropWhile (· != 10) with
+    | nil => simp
+    | cons d t =>
+      rw [hd] at h1
+      simp only [List.drop_succ_cons, List.drop_zero, List.length_cons] at h1 ⊢
+      omega
+
+theorem codeStart_ne_nil (kws : List (Bytes × Bytes)) (hn : ∀ kw ∈ kws, kw.1 ≠ []) (input : Bytes) (kw : Bytes × Bytes)
+    (h : codeStart kws input = some kw) : input ≠ [] := by
+  intro e
+  subst e
+  unfold codeStart at h
+  have hmem := List.mem_of_find?_eq_some h
+  have hp := List.find?_some h
+  have : kw.1 = [] := by
+    cases hk1 : kw.1 with
+    | nil => rfl
+    | cons c r => rw [hk1] at hp; simp at hp
+  exact hn kw hmem this
+
+/-- the fuel of the slow path of `clean` never runs out: every round consumes at least one
+byte, so any two fuels above the input length give the same result (the `while (true)` loop
+of the C++ terminates) — for both shapes of the loop; with the re-test a round that only
+copies a block consumes input because a code keyword name is not empty. -/
+theorem cleanSlow_fuel (retest : Bool) (kws : List (Bytes × Bytes)) (hn : ∀ kw ∈ kws, kw.1 ≠ []) :
+    ∀ (f1 f2 : Nat) (input : Bytes),
+    input.length < f1 → input.length < f2 → cleanSlow retest kws f1 input = cleanSlow retest kws f2 input := by
+  intro f1
+  induction f1 with
+  | zero => intro f2 input h; omega
+  | succ f1 ih =>
+    intro f2 input h1 h2
+    cases f2 with
+    | zero => omega
+    | succ f2 =>
+      simp only [cleanSlow]
+      -- the input left after an optional copied block is no longer than the input
+      have key : ∀ (copied input1 : Bytes), input1.length ≤ input.length →
+          (match getline input1 with
+            | none => copied
+            | some (line, rest) => copied ++ cleanLine line ++ [10] ++ cleanSlow retest kws f1 rest) =
+          (match getline input1 with
+            | none => copied
+            | some (line, rest) => copied ++ cleanLine line ++ [10] ++ cleanSlow retest kws f2 rest) := by
+        intro copied input1 hle
+        cases hg : getline input1 with
+        | none => rfl
+        | some lr =>
+          obtain ⟨line, rest⟩ := lr
+          have := getline_rest_lt input1 line rest hg
+          simp only
+          rw [ih f2 rest (by omega) (by omega)]
+      cases hcs : codeStart kws input with
+      | none =>
+        simp only
+        cases hg : getline input with
+        | none => rfl
+        | some lr =>
+          obtain ⟨line, rest⟩ := lr
+          have := getline_rest_lt input line rest hg
+          simp only
+          rw [ih f2 rest (by omega) (by omega)]
+      | some kw =>
+        have hine : input ≠ [] := codeStart_ne_nil kws hn input kw hcs
+        have hpos : 0 < input.length := List.length_pos_iff.mpr hine
+        simp only
+        cases hf : findSub kw.2 input with
+        | none =>
+          simp only
+          cases retest with
+          | true => simp only [↓reduceIte]; rw [ih f2 [] (by simp; omega) (by simp; omega)]
+          | false => simp only [Bool.false_eq_true, ↓reduceIte]; exact key input [] (by simp)
+        | some p =>
+          simp only
+          cases retest with
+          | true =>
+            simp only [↓reduceIte]
+            rw [ih f2 (input.drop (p + kw.2.length + 1)) (by simp; omega) (by simp; omega)]
+          | false => simp only [Bool.false_eq_true, ↓reduceIte]; exact key _ _ (by simp)
+
+theorem endsNL_append_of (a b : Bytes) (hb : EndsNL b) : EndsNL (a ++ b) := by
+  unfold EndsNL at *
+  rw [List.getLast?_append, hb]; rfl
+
+/-- the slow path, too, returns a buffer that is empty or ends in '\n' (every piece it
+writes ends in '\n'; a block without its end string is the rest of the input, which does). -/
+theorem cleanSlow_endsNL (retest : Bool) (kws : List (Bytes × Bytes)) : ∀ (fuel : Nat) (input : Bytes),
+    input = [] ∨ EndsNL input → cleanSlow retest kws fuel input = [] ∨ EndsNL (cleanSlow retest kws fuel input) := by
+  intro fuel
+  induction fuel with
+  | zero => intro input _; left; rfl
+  | succ fuel ih =>
+    intro input hin
+    simp only [cleanSlow]
+    have key : ∀ (copied input1 : Bytes), (copied = [] ∨ EndsNL copied) → (input1 = [] ∨ EndsNL input1) →
+        (match getline input1 with
+          | none => copied
+          | some (line, rest) => copied ++ cleanLine line ++ [10] ++ cleanSlow retest kws fuel rest) = [] ∨
+        EndsNL (match getline input1 with
+          | none => copied
+          | some (line, rest) => copied ++ cleanLine line ++ [10] ++ cleanSlow retest kws fuel rest) := by
+      intro copied input1 hc hi
+      rcases hi with h0 | hnl
+      · subst h0; simpa [getline] using hc
+      · obtain ⟨line, rest, hg, _, _, hrest⟩ := getline_endsNL input1 hnl
+        rw [hg]
+        simp only
+        right
+        rcases ih rest hrest with h0 | hnl'
+        · rw [h0, List.append_nil]
+          exact endsNL_append_of _ [10] (by decide)
+        · exact endsNL_append_of _ _ hnl'
+    have keyR : ∀ (copied input1 : Bytes), (copied = [] ∨ EndsNL copied) → (input1 = [] ∨ EndsNL input1) →
+        copied ++ cleanSlow retest kws fuel input1 = [] ∨ EndsNL (copied ++ cleanSlow retest kws fuel input1) := by
+      intro copied input1 hc hi
+      rcases ih input1 hi with h0 | hnl
+      · rw [h0, List.append_nil]; exact hc
+      · right; exact endsNL_append_of _ _ hnl
+    cases hcs : codeStart kws input with
+    | none =>
+      simp only
+      rcases hin with h0 | hnl
+      · subst h0; left; simp [getline]
+      · obtain ⟨line, rest, hg, _, _, hrest⟩ := getline_endsNL input hnl
+        rw [hg]
+        simp only
+        right
+        rcases ih rest hrest with h0 | hnl'
+        · rw [h0, List.append_nil]
+          exact endsNL_append_of _ [10] (by decide)
+        · exact endsNL_append_of _ _ hnl'
+    | some kw =>
+      simp only
+      cases hf : findSub kw.2 input with
+      | none =>
+        simp only
+        cases retest with
+        | true => simp only [↓reduceIte]; exact keyR input [] hin (Or.inl rfl)
+        | false => simp only [Bool.false_eq_true, ↓reduceIte]; exact key input [] hin (Or.inl rfl)
+      | some p =>
+        simp only
+        have hrest : input.drop (p + kw.2.length + 1) = [] ∨ EndsNL (input.drop (p + kw.2.length + 1)) := by
+          rcases hin with h0 | hnl
+          · subst h0; left; simp
+          · exact endsNL_drop input _ hnl
+        cases retest with
+        | true =>
+          simp only [↓reduceIte]
+          exact keyR _ _ (Or.inr (endsNL_append_of _ [10] (by decide))) hrest
+        | false =>
+          simp only [Bool.false_eq_true, ↓reduceIte]
+          exact key _ _ (Or.inr (endsNL_append_of _ [10] (by decide))) hrest
+
+theorem clean_endsNL (retest : Bool) (kws : List (Bytes × Bytes)) (input : Bytes) (h : input = [] ∨ EndsNL input) :
+    clean retest kws input = [] ∨ EndsNL (clean retest kws input) := by
+  unfold clean
+  split
+  · exact cleanSlow_endsNL retest kws _ input h
+  · exact fastClean_endsNL input
 
 end OpmVerif.Lex
 
